@@ -24,7 +24,7 @@ theorem setRd_other (σ : RSys) {r q : Nat} (x : Rd) (h : q ≠ r) : (σ.setRd r
 
 theorem rinv_step {c : ReadCfg} (hc : c.Good) {σ : RSys} (hi : RInv σ) (e : Ev)
     (hf : flowOk c σ e) (hr : raftOk σ e) (hx : readIndexOk σ e) : RInv (rstep σ e) := by
-  obtain ⟨hc1, hc2⟩ := hc
+  obtain ⟨hc1, hc2, _⟩ := hc
   cases e with
   | commit n =>
     simp only [raftOk] at hr
